@@ -26,7 +26,8 @@ EXPLANATION = (
     "(D6) measurements representing a distribution: work on a deep copy, int(round(p*N)) shots per outcome, top-up / "
     "removal draws |N - current| corrections, each drawn outcome is added / removed as many times as it was drawn, "
     "removal is restricted to outcomes actually present; (D7) none of these functions writes through its arguments "
-    "(effect analysis on every parameter, including plain dicts and lists)."
+    "(effect analysis on every parameter, including plain dicts and lists). "
+    "(D3i) the number of copies is computed in integer arithmetic (no rounding of a floating-point quotient); (D6c) shot Counters are only ever merged by addition (| and & take max / min)."
 )
 RULE_TEXT = "instances = guards, chunking/zip/aggregate sites, 960 grid points of the expansion formula, recombination comprehensions, rounding/top-up/removal sites, (function, parameter) purity pairs"
 ASSUMPTIONS = [
